@@ -149,4 +149,8 @@ MUTANTS = [
     ("pyc-no-tag", ["C18"], I, "        with patch(\n            \"importlib._bootstrap_external.cache_from_source\",\n            ft.partial(_optimized_cache_from_source, self._typechecker.get_hash()),\n        ):\n            return super().get_code(fullname)", "        return super().get_code(fullname)"),
     ("pyc-patch-whole-exec", ["C18"], I, "    def get_code(self, fullname):", "    def exec_module(self, module):\n        with patch(\"importlib._bootstrap_external.cache_from_source\", ft.partial(_optimized_cache_from_source, self._typechecker.get_hash())):\n            return super().exec_module(module)\n\n    def get_code_unused(self, fullname):"),
     ("pyc-hash-collapses", ["C18"], I, '            self.hash = hashlib.md5(typechecker.encode("utf-8")).hexdigest()', '            self.hash = hashlib.md5(typechecker.split(".")[0].encode("utf-8")).hexdigest()'),
+    ("check-reads-values", ["C17"], A, "        if get_treeflatten_memo():\n            return \"\"\n", "        if get_treeflatten_memo():\n            return \"\"\n        if hasattr(obj, 'sum') and len(obj.shape) > 0 and obj.shape[0] > 1 and bool(obj.sum() != obj.sum()):\n            return 'nan'\n"),
+    ("check-asarray", ["C17"], A, "        if get_treeflatten_memo():\n            return \"\"\n", "        if get_treeflatten_memo():\n            return \"\"\n        if len(getattr(obj, 'shape', ())) == 2:\n            np.asarray(obj)\n"),
+    ("tracer-rejected", ["C17"], A, "            if not isinstance(obj, cls.array_type):", "            if not isinstance(obj, cls.array_type) or ('Tracer' in type(obj).__name__ and len(obj.shape) == 3):"),
+    ("batchtracer-shape-misread", ["C17"], A, "            if len(obj.shape) != len(cls.dims):", "            if len(getattr(obj, 'val', obj).shape) != len(cls.dims):"),
 ]
